@@ -217,6 +217,12 @@ def _url_files(n1, n2, b1, b2, tname):
                   "real :: x", "end subroutine", f"subroutine {b2}(x)" if isinstance(b2, str) else _choice.apply(lambda b: f"subroutine {b}(x)", b2),
                   "double precision :: x", "end subroutine", "end interface axpy",
                   _choice.apply(lambda t: f"type {t}", tname), "integer :: init", "contains", "procedure :: run", "end type",
+                  # a second type re-using a component name (numbered `init~2`) next to components spelled like numbered names
+                  "type pt", "integer :: init", "integer :: init2", "integer :: init_2", "contains", "procedure :: run", "procedure :: run2 => run",
+                  "end type",
+                  "interface operator(+)", "module procedure run", "end interface", "interface operator(==)", "module procedure run", "end interface",
+                  "interface operator(=)", "module procedure run", "end interface", "interface assignment(=)", "module procedure run", "end interface",
+                  "interface operator(<)", "module procedure run", "end interface", "interface operator(<=)", "module procedure run", "end interface",
                   "contains", _choice.apply(lambda n: f"subroutine {n}()", n1), "integer :: init", "contains",
                   "subroutine helper()", "end subroutine helper", "end subroutine",
                   "subroutine run(self)", "class(*) :: self", "end subroutine run", "end module mod_a"],
@@ -270,6 +276,12 @@ def replay_urls(w):
         if k in seen and seen[k] is not e and not _same_page_by_design(seen[k], e):
             dup.append((u, _describe(seen[k]), _describe(e)))
         seen.setdefault(k, e)
+    anchors = [(e, getattr(e, "parent", None), e.anchor) for e in ents if getattr(e, "parent", None) is not None]
+    for i in range(len(anchors)):
+        for j in range(i):
+            a, b = anchors[i], anchors[j]
+            if a[1] is b[1] and a[0] is not b[0] and not _same_page_by_design(a[0], b[0]) and a[2] == b[2]:
+                dup.append(("#" + a[2], _describe(a[0]), _describe(b[0])))
     return bool(dup), {"files": _url_files(*w["slots"]), "shared_urls": dup[:5]}
 
 
@@ -306,8 +318,16 @@ def urls(ctx):
         E.assume(_choice.apply(lambda a, t: a.lower() != t.lower(), n1, tn))
         E.e.snapshot = lambda m: {"slots": [_choice.value_in_model(m, x) for x in (n1, n2, b1, b2, tn)]}
         with contextlib.redirect_stdout(io.StringIO()), contextlib.redirect_stderr(io.StringIO()):
-            urls_ = _parserh.project(_url_files(n1, n2, b1, b2, tn), post=lambda p: [(e, e.get_url()) for e in _all_entities(p)], **PSET10)
+            urls_, anchors = _parserh.project(_url_files(n1, n2, b1, b2, tn), post=lambda p: (
+                [(e, e.get_url()) for e in _all_entities(p)],
+                [(e, getattr(e, "parent", None), e.anchor) for e in _all_entities(p) if getattr(e, "parent", None) is not None]), **PSET10)
         E.reachable("urls")
+        # items summarised on their parent's page carry `id=anchor`: distinct children of one parent need distinct anchors
+        for i in range(len(anchors)):
+            for j in range(i):
+                a, b = anchors[i], anchors[j]
+                if a[1] is b[1] and a[0] is not b[0] and not _same_page_by_design(a[0], b[0]):
+                    E.require(_choice.apply(lambda x, y: x != y, a[2], b[2]), "two different items of one parent share an anchor id")
         urls_ = [(e, u) for e, u in urls_ if u is not None]
         for i in range(len(urls_)):
             for j in range(i):
